@@ -67,9 +67,11 @@ def check_diagnostics(errs, files, fault=None):
                 out.append(("quoted-line-number-outside-file", "quotes line %d of a %d-line file" % (k, n)))
             elif src_lines[k - 1] != text:
                 out.append(("quoted-line-not-verbatim", "line %d is %r, quoted as %r" % (k, src_lines[k - 1][:60], text[:60])))
-        # the line the caret belongs to (header line) and the lines of the causes
-        for num, text in QUOTED.findall(e):
-            pass
+        # a caret must stand under a quoted source line: a position rendered as a bare '<unknown>' line (a cause whose source text
+        # was not available to the renderer) is a position without the line it belongs to
+        for m in re.finditer(r"^[ \t]*<unknown>[ \t]*\n[ \t]*\^", e, re.M):
+            out.append(("position-without-source-line", "a caret under '<unknown>' instead of a quoted source line"))
+            break
         for m in re.finditer(r"^ *(\d+) \| .*\n +\^", e, re.M):
             lines_on.add((path, int(m.group(1))))
     if fault is not None and not any(k.startswith(("unknown-file", "no-location")) for k, _ in out):
